@@ -12,7 +12,7 @@ from .models_hash import HMODELS
 from .models_sign import SMODELS, REDUCE, B256
 from . import models_interp  # registers BigInt / stack models into MODELS
 from .queries_total import point_models
-from .txmodel import Ctx, mk_struct, none
+from .txmodel import Ctx, mk_struct, none, mk_interp
 from . import concrete as C
 from . import seqeq as SE
 from .queries import QResult, finish, MAX_VIOLATIONS
@@ -436,8 +436,169 @@ def q_checksig(env, max_n=2, flags=(0x41, 0x01, 0xc3, 0x40), part="all", min_n=1
                     if sat(r.pc, z3.Not(acc), want) != z3.unsat:
                         report(f"{what}: rejects although every signature matches a distinct key in order", "spend signed through the API")
                 finish(qr, ex)
+    # ------------------------------------------------------------ whole runs: which subscript reaches the sighash after conditionals / separators
+    if part in ("context", "context_inbranch"):
+        run_separator_context(env, qr, part, new_exec, context, report, sat, PRE_OK, DER_VALID, FORMAT_OK, ON_CURVE, KIND)
     qr.samples.append({"obligation": qr.name, "opcodes": ["OP_CHECKSIG", "OP_CHECKSIGVERIFY", "OP_CHECKMULTISIG", "OP_CHECKMULTISIGVERIFY"], "multisig": f"1 <= m <= n <= {max_n}"})
     return qr
+
+
+def run_separator_context(env, qr, part, new_exec, context, report, sat, PRE_OK, DER_VALID, FORMAT_OK, ON_CURVE, KIND):
+    """C15 'computed with the subscript that starts after the most recently executed code separator', decided over WHOLE RUNS
+    (Interpreter::run_impl on unlocking ++ locking elements with a spending context): conditionals executed before the separator,
+    several separators, separators in branches that do not run (part 'context'), a separator inside a branch that runs (part
+    'context_inbranch').  The subscript handed to sighash_preimage_impl is compared, flattened to its serialisation order, with the
+    reference: the locking script's serialisation from the element after the last executed OP_CODESEPARATOR to its end."""
+    P = env.P
+    f_run = env.fn("interpreter::Interpreter::run_impl")
+    E, OPS = P.enums["ScriptBit"], P.enums["OpCodes"]
+
+    def opb(nm):
+        return Enum("ScriptBit", "OpCode", E["OpCode"], [Enum("OpCodes", nm, OPS[nm])])
+
+    def ifb(code, p, fl):
+        return Enum("ScriptBit", "If", E["If"], [Enum("OpCodes", code, OPS[code]), ListV(list(p)), some(ListV(list(fl))) if fl is not None else NONE_()])
+
+    def NONE_():
+        return none()
+
+    def push(bs):
+        return Enum("ScriptBit", "Push", E["Push"], [Bytes(seq_of(bs))])
+
+    names = {v: k for k, v in OPS.items()}
+
+    def flat(b):
+        """serialisation order of one element as a list of hashable ids"""
+        b = deref(b)
+        if b.variant == "OpCode":
+            o = deref(b.f[0])
+            return [("op", names.get(o.discr, o.discr))]
+        if b.variant in ("Push", "PushData"):
+            return [("push", str(z3.simplify(b.f[-1].s)))]
+        if b.variant == "If":
+            code, p, fl = deref(b.f[0]), deref(b.f[1]), deref(b.f[2])
+            out = [("op", names.get(code.discr, code.discr))]
+            for x in p.f:
+                out += flat(x)
+            if fl.variant == "Some":
+                out.append(("op", "OP_ELSE"))
+                for x in deref(fl.f[0]).f:
+                    out += flat(x)
+            out.append(("op", "OP_ENDIF"))
+            return out
+        return [("?", repr(b)[:60])]
+
+    def flat_all(bits):
+        out = []
+        for b in bits:
+            out += flat(b)
+        return out
+
+    NOP, SEP = (lambda: opb("OP_NOP")), (lambda: opb("OP_CODESEPARATOR"))
+    # label -> (unlock builder(c) , lock builder(c), expected = number of flattened ids of the lock to drop, native lock prefix asm)
+    # c.sig / c.pk are symbolic byte lists, c.cond one symbolic byte
+    shapes = {}
+    if part == "context":
+        shapes["pk CHECKSIG"] = (lambda c: [push(c.sig)], lambda c: [push(c.pk), opb("OP_CHECKSIG")], lambda lk: 0, None)
+        shapes["NOP CODESEP pk CHECKSIG"] = (lambda c: [push(c.sig)], lambda c: [NOP(), SEP(), push(c.pk), opb("OP_CHECKSIG")], lambda lk: 2, ("OP_NOP OP_CODESEPARATOR {core}", []))
+        shapes["CODESEP NOP CODESEP pk CHECKSIGVERIFY"] = (lambda c: [push(c.sig)], lambda c: [SEP(), NOP(), SEP(), push(c.pk), opb("OP_CHECKSIGVERIFY")], lambda lk: 3, ("OP_CODESEPARATOR OP_NOP OP_CODESEPARATOR {core}", []))
+        shapes["<c> IF NOP NOP ELSE NOP ENDIF CODESEP pk CHECKSIG"] = (lambda c: [push(c.sig)], lambda c: [push([c.cond]), ifb("OP_IF", [NOP(), NOP()], [NOP()]), SEP(), push(c.pk), opb("OP_CHECKSIG")],
+                                                                       lambda lk: len(flat_all(lk[:3])), ("OP_1 OP_IF OP_NOP OP_NOP OP_ELSE OP_NOP OP_ENDIF OP_CODESEPARATOR {core}", []))
+        shapes["unlock <sig> <c> | NOTIF NOP ENDIF CODESEP pk CHECKSIG"] = (lambda c: [push(c.sig), push([c.cond])], lambda c: [ifb("OP_NOTIF", [NOP()], None), SEP(), push(c.pk), opb("OP_CHECKSIG")],
+                                                                           lambda lk: len(flat_all(lk[:2])), ("OP_0 OP_NOTIF OP_NOP OP_ENDIF OP_CODESEPARATOR {core}", []))
+        shapes["1 IF 1 IF NOP ENDIF ENDIF CODESEP pk CHECKSIG"] = (lambda c: [push(c.sig)], lambda c: [opb("OP_1"), ifb("OP_IF", [opb("OP_1"), ifb("OP_IF", [NOP()], None)], None), SEP(), push(c.pk), opb("OP_CHECKSIG")],
+                                                                  lambda lk: len(flat_all(lk[:3])), ("OP_1 OP_IF OP_1 OP_IF OP_NOP OP_ENDIF OP_ENDIF OP_CODESEPARATOR {core}", []))
+        shapes["0 IF CODESEP ENDIF pk CHECKSIG (separator in a branch that does not run)"] = (lambda c: [push(c.sig)], lambda c: [opb("OP_0"), ifb("OP_IF", [SEP()], None), push(c.pk), opb("OP_CHECKSIG")], lambda lk: 0, None)
+        shapes["CODESEP 1 IF NOP ENDIF pk CHECKSIG (conditional after the separator)"] = (lambda c: [push(c.sig)], lambda c: [SEP(), opb("OP_1"), ifb("OP_IF", [NOP()], None), push(c.pk), opb("OP_CHECKSIG")], lambda lk: 1, ("OP_CODESEPARATOR OP_1 OP_IF OP_NOP OP_ENDIF {core}", ["OP_1", "OP_IF", "OP_NOP", "OP_ENDIF"]))
+        shapes["1 IF NOP ENDIF CODESEP 1 pk 1 CHECKMULTISIG"] = (lambda c: [opb("OP_0"), push(c.sig)], lambda c: [opb("OP_1"), ifb("OP_IF", [NOP()], None), SEP(), opb("OP_1"), push(c.pk), opb("OP_1"), opb("OP_CHECKMULTISIG")],
+                                                                lambda lk: len(flat_all(lk[:3])), ("OP_1 OP_IF OP_NOP OP_ENDIF OP_CODESEPARATOR {core}", []))
+    else:
+        # the separator runs INSIDE a branch: the serialisation after it still holds the rest of the branch and the closing OP_ENDIF
+        shapes["1 IF CODESEP NOP ENDIF pk CHECKSIG (separator inside the branch that runs)"] = (lambda c: [push(c.sig)], lambda c: [opb("OP_1"), ifb("OP_IF", [SEP(), NOP()], None), push(c.pk), opb("OP_CHECKSIG")], lambda lk: 3, ("OP_1 OP_IF OP_CODESEPARATOR OP_NOP OP_ENDIF {core}", ["OP_NOP", "OP_ENDIF"]))
+
+    import re as _re
+    extra = [(_re.compile(r"^Arguments::from_str$"), lambda ex, a, callee, canon: Opaque("fmt"))]
+    for label, (mk_unlock, mk_lock, drop, prefix) in shapes.items():
+        qr.cases += 1
+        ex = new_exec()
+        ex.models = extra + list(ex.models)
+
+        def setup(ex, mk_unlock=mk_unlock, mk_lock=mk_lock):
+            ctx = Ctx()
+            ctx.sig = [z3.BitVec(f"sig_{i}", 8) for i in range(9)]
+            ctx.pk = [z3.BitVec(f"pk_{i}", 8) for i in range(33)]
+            ctx.cond = z3.BitVec("cond", 8)
+            tx = context(ctx, 0, 0)
+            ctx.unlock, ctx.lock = mk_unlock(ctx), mk_lock(ctx)
+            ti = P.structs["TxIn"]
+            txin = tx.f[P.structs["Transaction"].index("inputs")].f[0]
+            txin.f[ti.index("unlocking_script")] = Struct("Script", [ListV(list(ctx.unlock))])
+            txin.f[ti.index("locking_script")] = some(Struct("Script", [ListV(list(ctx.lock))]))
+            ctx.assumptions.append(z3.Not(DER_VALID(seq_of(ctx.sig))))
+            ctx.assumptions.append(DER_VALID(seq_of(ctx.sig[:-1])))
+            ctx.assumptions.append(z3.Or(ctx.sig[-1] == 0x41, ctx.sig[-1] == 0x01))
+            ctx.assumptions.append(PRE_OK(z3.BitVecVal(0x41, 8)))
+            ctx.assumptions.append(PRE_OK(z3.BitVecVal(0x01, 8)))
+            pks = seq_of(ctx.pk)
+            ctx.assumptions.append(z3.And(FORMAT_OK(pks), ON_CURVE(pks), z3.Or(KIND(pks) == 2, KIND(pks) == 3)))
+            state = mk_struct(P, "State", stack=ListV([]), alt_stack=ListV([]), status=Enum("Status", "Running", P.enums["Status"]["Running"]), executed_opcodes=ListV([]), codeseparator_offset=Int(0, "usize"))
+            fields = dict(script_bits=ListV(list(ctx.unlock) + list(ctx.lock)), script_index=Int(0, "usize"), state=state, tx_script=some(mk_struct(P, "TxScript", tx=tx, input_index=Int(0, "usize"))))
+            for extra_f in P.structs["Interpreter"]:
+                if extra_f not in fields:
+                    # bookkeeping counters added to the interpreter start at zero, as in its constructors
+                    fields[extra_f] = Int(0, "usize")
+            ctx.interp = Ptr([mk_interp(P, **fields)], 0)
+            return f_run, [ctx.interp], ctx
+        try:
+            results = ex.explore(setup)
+        except Unsupported as e:
+            qr.undecided.append(f"run [{label}]: {e}")
+            continue
+        seen_call = False
+        for r in results:
+            qr.paths += 1
+            c = r.ctx
+            if r.kind == "panic":
+                report(f"run [{label}]: panics: {r.msg.split(' @')[0][:80]}")
+                continue
+            if r.kind != "ok":
+                qr.undecided.append(f"run [{label}]: {r.kind} {getattr(r, 'msg', '')}"[:200])
+                continue
+            for kw in [kw for nm, kw in getattr(r, "recorded", []) if nm == "preimage"]:
+                seen_call = True
+                full = flat_all(c.lock)
+                want = full[drop(c.lock):]
+                got = flat_all(deref(kw["script"]).f[0].f)
+                qr.queries += 1
+                if got != want:
+                    msg = (f"run [{label}]: the subscript handed to the sighash is not the locking script from the element after the most recently executed OP_CODESEPARATOR "
+                           f"(expected its last {len(want)} of {len(full)} serialised elements, got {len(got)}: {[g[1] if g[0] == 'op' else 'push' for g in got]})")
+                    report_context(qr, msg, prefix)
+                if kw["n"].concrete() != 0:
+                    report(f"run [{label}]: the sighash is computed for input {kw['n'].concrete()} instead of the input being verified (0)")
+                if sat(r.pc, kw["value"].t != c.value) != z3.unsat:
+                    report(f"run [{label}]: the value handed to the sighash is not the declared value of the spent output")
+        if not seen_call:
+            qr.undecided.append(f"run [{label}]: no path reaches the sighash computation (vacuous)")
+        finish(qr, ex)
+    qr.samples.append({"obligation": qr.name, "run_shapes": list(shapes)})
+
+
+def report_context(qr, what, prefix):
+    """native confirmation: a P2PK spend whose locking script is <prefix> <key> OP_CHECKSIG, signed over the reference subscript
+    (<key> OP_CHECKSIG, or the remaining serialisation for a separator inside a branch), must be accepted"""
+    if len(qr.violations) >= MAX_VIOLATIONS or any(v["message"] == what for v in qr.violations):
+        return
+    tpl, sub_ops = prefix or ("{core}", [])
+    ops = [{"op": "checksig", "kind": "p2pk", "m": 1, "n": 1, "separator": False, "lock_tpl": tpl, "sub_prefix_ops": sub_ops, "flag": fl, "value": 5000} for fl in (0x41, 0x01)]
+    req = {"tx": {"version": 1, "locktime": 0, "inputs": [], "outputs": []}, "ops": ops}
+    nat = {p: C.Native.run(req, p) for p in ("debug", "release")}
+    probs = sorted({p for v in nat.values() for o in v for p in (o.get("ok", {}).get("problems", []) if isinstance(o.get("ok"), dict) else ["tool: " + json.dumps(o)[:160]])})
+    item = {"message": what, "request": req, "op_index": 0, "expected": {"problems": []}, "native": {"problems": probs[:8]}, "reproduced": bool(probs)}
+    if probs:
+        qr.violations.append(item)
+    else:
+        qr.undecided.append(what + " — not reproduced natively")
 
 
 def q_interp_tx_total(env, name=None):
